@@ -97,7 +97,8 @@ Definition dec_event (k a b : N) : event :=
   | 4 => Send
   | 5 => Tick (a * sec)
   | 6 => Forged a
-  | _ => Replay a
+  | 7 => Replay a
+  | _ => Restart
   end.
 Definition dec_step (l : list N) : event * obs :=
   match l with
@@ -135,7 +136,7 @@ Fixpoint check_cases (ks : list case) (idx : N) : list (N * N * N) :=
    11 rekey after 165 s on receive; 12 initiation suppressed by the 5 s spacing; 13 initiation sent;
    14 ticks; 15 keys promoted with packets staged;
    16 forged message under next's index; 17 under current/previous; 18 under an index not honoured;
-   19 replayed message *)
+   19 replayed message; 20 restart; 21 restart with an unconfirmed key in next *)
 Definition same_kp (o : option kp) (k : kp) : bool :=
   match o with Some x => id x =? id k | None => false end.
 
@@ -186,6 +187,7 @@ Definition classify (s : state) (e : event) : list nat :=
           end
       end
   | Replay _ => [19%nat]
+  | Restart => match next s with Some _ => [20%nat; 21%nat] | None => [20%nat] end
   end.
 
 Fixpoint bump (l : list N) (i : nat) : list N :=
@@ -202,13 +204,13 @@ Fixpoint stats_case (s : state) (c : case) (st : list N) : list N :=
   end.
 
 Definition stats (ks : list case) : list N :=
-  fold_left (fun st k => stats_case init k st) ks (repeat 0 20).
+  fold_left (fun st k => stats_case init k st) ks (repeat 0 22).
 
 (* ---- exhaustive enumeration on the model ------------------------------------- *)
 (* The property's event kinds; a slot name is resolved against the model state. *)
 Inductive aev :=
 | ACI | ACR | ARecvPrev | ARecvCur | ARecvNext | ARecvRetired | ASend | ATick (secs : N)
-| AInitiate | ARespondStale | AForgeNext | AForgeCur.
+| AInitiate | ARespondStale | AForgeNext | AForgeCur | ARestart.
 
 Definition sid_of (o : option kp) : list event :=
   match o with Some k => [Recv (id k)] | None => [] end.
@@ -235,6 +237,7 @@ Definition concretize (s : state) (a : aev) : list event :=
   | ARespondStale => [Respond 1 r]
   | AForgeNext => match next s with Some k => [Forged (id k)] | None => [] end
   | AForgeCur => match cur s with Some k => [Forged (id k); Replay (id k)] | None => [] end
+  | ARestart => [Restart]
   end.
 
 (* run concrete events through model and specification; None = the specification
@@ -266,6 +269,6 @@ Fixpoint explore (alphabet : list aev) (depth : nat) (s : state) (t : sst) : opt
   end.
 
 Definition alphabet7 : list aev :=
-  [ACI; ACR; ARecvPrev; ARecvCur; ARecvNext; ARecvRetired; ASend; ATick 61; ATick 121].
+  [ACI; ACR; ARecvPrev; ARecvCur; ARecvNext; ARecvRetired; ASend; ATick 61; ATick 121; ARestart].
 Definition alphabet_full : list aev :=
   alphabet7 ++ [ATick 4; ATick 45; AInitiate; ARespondStale; AForgeNext; AForgeCur].
